@@ -103,6 +103,7 @@ Section Threads.
     | OTriplet d _ s pobjs _ _ =>
         mos t (ODom d) /\ mos t (OSt s) /\ mos t (OSt pobjs) /\
         own (OOp (length (ops m))) = Some t /\ own (OSt (length (sts m))) = Some t
+    | ONewState d p _ => mos t (ODom d) /\ mos t (OSt p) /\ own (OSt (length (sts m))) = Some t
     end.
 
   (* ---------------------------------------------------------------- reads of values *)
@@ -314,7 +315,9 @@ Section Threads.
     - destruct W as [Ws Wn].
       destruct (ev_copy_state m (nth s (sts m) dflt_s)) as [si evs] eqn:E. cbn [snd].
       pose proof (D_copy t m (nth s (sts m) dflt_s) (state_reads t m s HS Ws) Wn) as G. rewrite E in G; auto.
-    - cbn [snd]. disc. apply state_reads; auto.
+    - cbn [snd]. disc.
+      + unfold rd_ok, mos; cbn [fst]. left; exact own_mod.
+      + apply state_reads; auto.
     - cbn [snd]. disc. apply dom_reads; auto.
     - destruct W as [Wo Wn]. destruct (HO o t Wo Wn) as [Hd Hp]. cbn [snd]. disc.
       + unfold rd_ok, mos; cbn [fst]. right; auto.
@@ -346,6 +349,10 @@ Section Threads.
         disc; auto.
         pose proof (D_apply_body c t m1 (length (ops m)) oi (nth s (sts m) dflt_s) F15 F16 Wno) as G.
         rewrite Eb, Es in G. apply G; auto.
+    - destruct W as (Wd & Wp & Wn). cbn [snd]. disc.
+      + apply dom_reads; auto.
+      + exact Wp.
+      + apply D_fresh_state; auto.
   Qed.
 
   Lemma step_TInv : forall c t m p, writes_fixed c = true -> TInv m -> wt t m p -> TInv (fst (step c m p)).
@@ -413,6 +420,7 @@ Section Threads.
         * destruct (ev_apply_body c m1 (length (ops m)) oi (nth s (sts m) dflt_s)) as [m2 evb] eqn:Eb. cbn [fst].
           eapply OpInv_same; [| apply H1].
           pose proof (apply_body_ops c m1 (length (ops m)) oi (nth s (sts m) dflt_s)) as G. rewrite Eb in G; auto.
+      + cbn [fst]. eapply OpInv_same; [| apply HO]. reflexivity.
   Qed.
 
   (* ---------------------------------------------------------------- tagged histories *)
